@@ -9,6 +9,20 @@
 #ifndef VOUT_CAP
 #define VOUT_CAP 48
 #endif
+#ifdef VOUT_ACC
+/* shift-register sink: the whole output is one VOUT_CAP*8-bit vector, appended by `acc = acc << 8 | byte`
+ * (a constant shift: no symbolic array index), plus the length.  Two outputs are equal iff the lengths
+ * and the vectors are equal.  Used for 2-safety checks with many appends of symbolic length. */
+typedef unsigned __CPROVER_bitvector[VOUT_CAP * 8] vacc_t;
+struct vout { size_t len; _Bool overflow; vacc_t acc; };
+static inline void vout_init(struct vout *o) { o->len = 0; o->overflow = 0; o->acc = 0; }
+static inline void vout_ch(struct vout *o, char c)
+{
+    if (o->len >= VOUT_CAP) o->overflow = 1;
+    o->acc = (o->acc << 8) | (vacc_t)(unsigned char)c;
+    o->len++;
+}
+#else
 struct vout { size_t len; _Bool overflow; unsigned char buf[VOUT_CAP]; };
 
 static inline void vout_init(struct vout *o) { o->len = 0; o->overflow = 0; }
@@ -17,6 +31,7 @@ static inline void vout_ch(struct vout *o, char c)
     if (o->len < VOUT_CAP) o->buf[o->len] = (unsigned char)c; else o->overflow = 1;
     o->len++;
 }
+#endif
 static inline void vout_str(struct vout *o, const char *s, size_t n) { for (size_t i = 0; i < n; i++) vout_ch(o, s[i]); }
 static inline void vout_lit(struct vout *o, const char *lit) { for (size_t i = 0; lit[i] != 0; i++) vout_ch(o, lit[i]); }
 /* std::to_string / operator<< of an unsigned integer: base 8/10/16, minimum width, fill character */
@@ -53,11 +68,28 @@ static inline void nondet_vdec(struct vdec_rec *r, unsigned long long v)
     __CPROVER_assume(r->n == 1 || r->d[0] != 0);
     __CPROVER_assume((v == 0) == (r->n == 1 && r->d[0] == 0));
     __CPROVER_assume((v < 10) == (r->n == 1));
+    __CPROVER_assume((v < 100) == (r->n <= 2));
+    __CPROVER_assume((v < 1000) == (r->n <= 3));
     __CPROVER_assume(r->n != 1 || r->d[0] == v);
     __CPROVER_assume(v > 0xFFFFFFFFull || r->n <= 10);
 }
+/* values below 1000 (e.g. anything cast to uint8_t): rendered exactly with 16-bit arithmetic, no log entry needed */
+static inline void vout_dec_small(struct vout *o, unsigned long long v)
+{
+    __CPROVER_assert(v < 1000, "vout_dec_small: value below 1000");
+    /* digits by comparison chains and subtraction (no division: SAT-friendly) */
+    unsigned short w = (unsigned short)v;
+    unsigned short h = (unsigned short)(w >= 900 ? 9 : w >= 800 ? 8 : w >= 700 ? 7 : w >= 600 ? 6 : w >= 500 ? 5 : w >= 400 ? 4 : w >= 300 ? 3 : w >= 200 ? 2 : w >= 100 ? 1 : 0);
+    unsigned short r = (unsigned short)(w - 100 * h);
+    unsigned short t = (unsigned short)(r >= 90 ? 9 : r >= 80 ? 8 : r >= 70 ? 7 : r >= 60 ? 6 : r >= 50 ? 5 : r >= 40 ? 4 : r >= 30 ? 3 : r >= 20 ? 2 : r >= 10 ? 1 : 0);
+    unsigned short u = (unsigned short)(r - 10 * t);
+    if (h != 0) vout_ch(o, (char)('0' + h));
+    if (h != 0 || t != 0) vout_ch(o, (char)('0' + t));
+    vout_ch(o, (char)('0' + u));
+}
 static inline void vout_dec(struct vout *o, unsigned long long v)
 {
+    if (v < 1000) { vout_dec_small(o, v); return; }   /* consistent with the facts assumed for longer renderings below */
     __CPROVER_assert(vdec_cnt < VDEC_MAX, "vout_dec: rendering log capacity");
     struct vdec_rec *r = &vdec_log[vdec_cnt];
     nondet_vdec(r, v);
@@ -68,6 +100,16 @@ static inline void vout_dec(struct vout *o, unsigned long long v)
     vdec_cnt++;
     for (unsigned i = 0; i < VDEC_DIGITS; i++) if (i < r->n) vout_ch(o, (char)('0' + r->d[i]));
 }
+#ifdef VOUT_ACC
+static inline _Bool vout_equal(const struct vout *a, const struct vout *b) { return a->len == b->len && a->acc == b->acc; }
+static inline _Bool vout_is_prefix(const struct vout *a, const struct vout *b)
+{
+    if (a->len > b->len || b->len > VOUT_CAP) return 0;
+    return (b->acc >> (8 * (b->len - a->len))) == a->acc;
+}
+#define VOUT_EQ_DEFINED
+#endif
+#ifndef VOUT_EQ_DEFINED
 static inline _Bool vout_equal(const struct vout *a, const struct vout *b)
 {
     if (a->len != b->len) return 0;
@@ -80,4 +122,5 @@ static inline _Bool vout_is_prefix(const struct vout *a, const struct vout *b)
     for (size_t i = 0; i < VOUT_CAP; i++) if (i < a->len && a->buf[i] != b->buf[i]) return 0;
     return 1;
 }
+#endif
 #endif
